@@ -144,11 +144,21 @@ func Run(tier, replay string) {
 		results[i] = rt.Run(ins[i].Text, true)
 	})
 	invalid := 0
+	var genInvalid []string
+	nGen := 0
+	for _, in := range ins {
+		if strings.HasPrefix(in.Origin, "tlc:") {
+			nGen++
+		}
+	}
 	byOrigin := map[string]int{}
 	for i, in := range ins {
 		r := results[i]
 		if !r.InputValid {
 			invalid++
+			if strings.HasPrefix(in.Origin, "tlc:") && !strings.Contains(r.InputDiag, "not arbitrated") {
+				genInvalid = append(genInvalid, in.Name+": "+mbt.Truncate(llvmDiag(r.InputDiag), 80))
+			}
 			continue
 		}
 		byOrigin[in.Origin]++
@@ -160,6 +170,10 @@ func Run(tier, replay string) {
 	}
 	rep.Extra["inputs_by_origin"] = byOrigin
 	rep.Extra["inputs_not_valid_for_llvm"] = invalid
+	rep.Extra["generated_inputs_rejected_by_llvm"] = genInvalid
+	if nGen > 0 && len(genInvalid)*100 > 3*nGen {
+		mbt.Infra("LLVM rejects %d of %d generated modules (more than 3%%): the specification's validity rules are off, e.g. %v", len(genInvalid), nGen, genInvalid[:3])
+	}
 	rep.Assumptions = []string{"LLVM 14's own reading (llvm-as | llvm-dis) defines 'denotes the same module'; differences LLVM's printer normalises away are invisible",
 		"metadata and attribute-group numbering and the order of named metadata are normalised before comparison (rt.NormalizeMetadata)"}
 	rep.Finish()
